@@ -86,6 +86,40 @@ def types(depth, inner=None):
             yield f"{e1} | {e2} | {e3}", ("union", (m1, m2, m3))
 
 
+def types2():
+    """Level-2 terms: unions / containers / tuples whose components are level-1 parameterised types."""
+    reps = [BASE[i] for i in (0, 2, 4, 6, 7, 13)]
+    l1 = []
+    for e, m in reps:
+        l1 += [(f"list[{e}]", ("list", m)), (f"set[{e}]", ("set", m)), (f"tuple[{e}, ...]", ("tuplevar", m)), (f"({e},)", ("tuple", (m,)))]
+    for (e1, m1), (e2, m2) in itertools.product(reps[1:5], repeat=2):
+        l1 += [(f"dict[{e1}, {e2}]", ("dict", m1, m2)), (f"({e1}, {e2})", ("tuple", (m1, m2)))]
+    for (ea, ma) in reps:
+        for (ex, mx) in l1:
+            yield f"{ea} | {ex}", ("union", (ma, mx))
+            if not ex.startswith("("):  # a tuple of types is a plain tuple value: it has no `|`
+                yield f"{ex} | {ea}", ("union", (mx, ma))
+    for (ex, mx) in l1:
+        yield f"list[{ex}]", ("list", mx)
+        yield f"dict[str, {ex}]", ("dict", ("str",), mx)
+        yield f"({ex}, int)", ("tuple", (mx, ("int",)))
+        yield f"tuple[{ex}, ...]", ("tuplevar", mx)
+        yield f"None | int | {ex}", ("union", (("none",), ("int",), mx))
+    for (e1, m1), (e2, m2) in itertools.product(l1[::3], repeat=2):
+        if e1 != e2 and not e1.startswith("("):
+            yield f"{e1} | {e2}", ("union", (m1, m2))
+
+
+def flatten_union(alts):
+    out = []
+    for a in alts:
+        if a[0] == "union":
+            out += flatten_union(a[1])
+        else:
+            out.append(a)
+    return out
+
+
 def denotes(t, v):
     k = t[0]
     if k == "any":
@@ -113,7 +147,17 @@ def denotes(t, v):
     if k == "tuple":
         return isinstance(v, tuple) and len(v) == len(t[1]) and all(denotes(a, x) for a, x in zip(t[1], v))
     if k == "union":
-        return any(denotes(a, v) for a in t[1])
+        # Ty::unions normalises: list[A] | list[B] is list[A | B], dict[K1, V1] | dict[K2, V2] is dict[K1 | K2, V1 | V2]
+        # (documented as a lossy approximation in docs/types.md); all other alternatives are checked one by one
+        alts = flatten_union(t[1])
+        lists = [a[1] for a in alts if a[0] == "list"]
+        dicts = [a for a in alts if a[0] == "dict"]
+        rest = [a for a in alts if a[0] not in ("list", "dict")]
+        if lists:
+            rest.append(("list", ("union", tuple(lists)) if len(lists) > 1 else lists[0]))
+        if dicts:
+            rest.append(("dict", ("union", tuple(d[1] for d in dicts)), ("union", tuple(d[2] for d in dicts))) if len(dicts) > 1 else dicts[0])
+        return any(denotes(a, v) for a in rest)
     if k == "callable":
         return isinstance(v, (Fn, Ty))
     if k == "iterable":
@@ -143,6 +187,10 @@ def run(tier):
             if e not in seen:
                 seen.add(e)
                 tys.append((e, m))
+    for e, m in types2():
+        if e not in seen:
+            seen.add(e)
+            tys.append((e, m))
     vals = "V = [\n" + "".join(f"    {e},\n" for e, _ in VALUES) + "]\n"
     specs, meta = [], []
     CH = 40
@@ -151,7 +199,7 @@ def run(tier):
         defs = PRE + vals
         for j, (e, m) in enumerate(chunk):
             defs += (f"T{j} = {e}\ndef p{j}(x: {e}):\n    return 1\ndef r{j}(v) -> {e}:\n    return v\n"
-                     f"def a{j}(v):\n    x: {e} = v\n    return 1\n")
+                     f"def a{j}(v):\n    x: {e} = v\n    return 1\ndef c{j}(q):\n    return p{j}(q)\n")
         body = ""
         for j, (e, m) in enumerate(chunk):
             body += (f"emit([isinstance(v, T{j}) for v in V])\n"
@@ -159,8 +207,11 @@ def run(tier):
                      f"emit([not fails(lambda: p{j}(v)) for v in V])\n"
                      f"emit([not fails(lambda: r{j}(v)) for v in V])\n"
                      f"emit([not fails(lambda: a{j}(v)) for v in V])\n"
-                     f"emit([type_matches(T{j}, v) for v in V])\n")
-        names = ["V", "R1", "R2", "E1", "E2", "f_def"] + [f"{p}{j}" for j in range(len(chunk)) for p in ("T", "p", "r", "a")]
+                     f"emit([type_matches(T{j}, v) for v in V])\n"
+                     f"emit([not fails(lambda: c{j}(v)) for v in V])\n"
+                     f"def m{j}(q):\n    return p{j}(q)\nemit([not fails(lambda: m{j}(v)) for v in V])\n"
+                     f"def n{j}():\n    return [not fails(lambda: p{j}(V[i])) for i in range(len(V))]\nemit(n{j}())\n")
+        names = ["V", "R1", "R2", "E1", "E2", "f_def"] + [f"{p}{j}" for j in range(len(chunk)) for p in ("T", "p", "r", "a", "c")]
         ld = 'load("lib.star", ' + ", ".join(f'"{n}"' for n in names) + ")\n"
         specs.append({"steps": [defs + body]})
         meta.append(("unfrozen", chunk))
@@ -169,9 +220,11 @@ def run(tier):
     for i, s in enumerate(specs):
         s["id"] = i
         s["opts"] = {"dialect": "all"}
-    vlib.log(f"[C16] {len(tys)} types x {len(VALUES)} values x 6 paths x 2 (frozen/unfrozen); {len(specs)} programs")
+    vlib.log(f"[C16] {len(tys)} types x {len(VALUES)} values x 9 paths x 2 (frozen/unfrozen); {len(specs)} programs")
     outs = vlib.run_sut("run", specs)
-    paths = ["isinstance(v, T)", "isinstance(v, <expr>)", "def p(x: T)", "def r(v) -> T", "x: T = v", "TypeCompiled::matches"]
+    paths = ["isinstance(v, T)", "isinstance(v, <expr>)", "def p(x: T)", "def r(v) -> T", "x: T = v", "TypeCompiled::matches",
+             "def p(x: T) via caller parameter (same module as p)", "def p(x: T) via caller parameter (calling module)", "def p(x: T) via indexed global"]
+    NP = len(paths)
     checks = 0
     distinct = set()
     for s, (mode, chunk), o in zip(specs, meta, outs):
@@ -186,15 +239,15 @@ def run(tier):
             continue
         out = st["out"]
         for j, (e, m) in enumerate(chunk):
-            for pi in range(6):
-                row = out[j * 6 + pi][4:-1].split(",")
+            for pi in range(NP):
+                row = out[j * NP + pi][4:-1].split(",")
                 for (ve, vm), got in zip(VALUES, row):
                     checks += 1
                     want = denotes(m, vm)
                     if (got == "T") != want:
                         res.violation(f"C16:{'accepts' if got == 'T' else 'rejects'}:{m[0]}:{paths[pi]}:{mode}",
                                       {"type": e, "value": ve, "path": paths[pi], "mode": mode, "got": got == "T", "denotes": want})
-            distinct.add((e, out[j * 6]))
+            distinct.add((e, out[j * NP]))
     res.coverage = {
         "evaluations": checks,
         "distinct_nontrivial": len(distinct),
